@@ -142,9 +142,13 @@ Qed.
 Lemma agreement_refuted : ~ C06_agreement_full.
 Proof.
   intro H. destruct Witness.zero_penalty_block_rejected as (b & Hb & Hr).
-  unfold Witness.process in Hr. unfold Witness.build in Hb.
-  rewrite (H _ _ _ _ _ _ _ _ _ _ _ _ _ _ _ _ _ _ _ _ id_sched id_sched (fun _ => None) (fun _ => None) _ _ _ _ _ b) in Hr;
-    try apply id_sched_valid; try (intros e a E; discriminate); [discriminate | exact Hb].
+  assert (Hm : memo_valid Witness.resolve (fun _ => None)) by (intros e a E; discriminate).
+  pose proof (H Witness.St N unit Witness.exec Witness.price Witness.resolve Witness.val_exists Witness.penalize0 5%N
+                Witness.view Witness.apply_rewards true 9 5 (mkPR 3 3 4) 4%N Witness.period_end Witness.commit
+                Witness.rhash Witness.rhash id_sched id_sched (fun _ => None) (fun _ => None) false 5%N 9%N
+                [3; 12; 4]%N [Witness.ev; Witness.ev_future; Witness.ev] b
+                id_sched_valid id_sched_valid Hm Hm Hb) as Hacc.
+  change (5 - 1)%N with 4%N in Hacc. unfold Witness.process in Hr. rewrite Hr in Hacc. discriminate.
 Qed.
 Theorem C06_full_refuted : ~ C06_determinism_full /\ ~ C06_agreement_full.
 Proof. exact (conj determinism_refuted agreement_refuted). Qed.
